@@ -164,13 +164,14 @@ package requestmanager
 //@   lenient
 //@   requires invRM(rm) && distinctIDs(responses)
 //@   -- (decoded messages carry non-nil blocks: message/v2 fromIPLD builds each with NewBlockWithCid)
-//@   requires forall j int :: 0 <= j && j < len(blks) ==> blks[j] != nil
+//@   -- C01: every received block hashes to its own CID (what the decoder establishes, message/v2 fromIPLD) ...
+//@   requires blkListOK(blks)
 //@   modifies inProgressRequestStatus.terminalError, rm.inProgressRequestStatuses[*], closedErr, closedProg, alloc
+//@   modifies reconciledloader.remotedLinkedItem.next, reconciledloader.remotedLinkedItem.remoteItem, reconciledloader.remoteQueue.head, reconciledloader.remoteQueue.tail, reconciledloader.remoteQueue.dataSize, allmaps("map[cid.Cid]struct{}")
 //@   ensures invRM(rm)
-//@   -- C01: if every received block hashes to its own CID (what the decoder establishes), the block bytes offered to a
-//@   -- request's loader are keyed by the CID they hash to
-//@   loop 2 invariant blkListOK(blks) ==> (forall c cid.Cid :: c in blkMap ==> isSumOf(c, blkMap[c]))
-//@   callsite ReconciledLoader.IngestResponse: assert blkListOK(blks) ==> (forall c cid.Cid :: c in arg2 ==> isSumOf(c, arg2[c]))
+//@   -- ... so the block bytes offered to a request's loader are keyed by the CID they hash to
+//@   loop 2 invariant forall c cid.Cid :: c in blkMap ==> isSumOf(c, blkMap[c])
+//@   callsite ReconciledLoader.IngestResponse: assert forall c cid.Cid :: c in arg2 ==> isSumOf(c, arg2[c])
 //@   callsite RequestManager.updateLastResponses: assert forall j int :: 0 <= j && j < len($responses) ==> owned(rm, p, $responses[j].requestID)
 //@   callsite ReconciledLoader.IngestResponse: assert owned(rm, p, response.requestID)
 //@   callsite RequestManager.processTerminations: assert forall j int :: 0 <= j && j < len($responses) ==> owned(rm, p, $responses[j].requestID)
@@ -235,4 +236,7 @@ package requestmanager
 //@ func processResponsesMessage.handle
 //@   lenient
 //@   safety off
+//@   requires prm != nil && invRM(rm) && distinctIDs(prm.responses) && blkListOK(prm.blks)
+//@   modifies inProgressRequestStatus.terminalError, rm.inProgressRequestStatuses[*], closedErr, closedProg, alloc
+//@   modifies reconciledloader.remotedLinkedItem.next, reconciledloader.remotedLinkedItem.remoteItem, reconciledloader.remoteQueue.head, reconciledloader.remoteQueue.tail, reconciledloader.remoteQueue.dataSize, allmaps("map[cid.Cid]struct{}")
 //@   callsite RequestManager.processResponses: assert $blks == prm.blks && $p == prm.p && $responses == prm.responses
